@@ -6,7 +6,7 @@ and the declarative presumed-location spec).
 
 One output line per input line (input protocol of `harness/scan_h.c`):
 * `pp <hex>` / `ppnl <hex>` (without / with `PPNEWLINE`) →
-      `<tok> <tok> … [!<err>] | <spec> <spec> … | <dir> <dir> …`
+      `<tok> <tok> … [!<err>] | <spec> <spec> … | <dir> <dir> … | [<spec of the token of <err>>]`
   `<tok>`  = `<kind number>:<lit hex | ->:<file>:<line>.<col>:<space 0|1>`  (as the harness prints;
              `<file>` is `=` for `in.c`, else hex; `TOTHER` prints one byte of its spelling)
   `<err>`  = `<file>:<line>.<col>:<what>` with `<what>` one of `scan.<errkind>`,
@@ -95,7 +95,12 @@ def showRun (text : List UInt8) (r : Run) : String :=
   let dirs := r.dirs.map toDir
   let spec := " ".intercalate (r.toks.map (showSpec text dirs))
   let ds := " ".intercalate (r.dirs.map showDir)
-  toks ++ " | " ++ spec ++ " | " ++ ds
+  let es := match r.err with
+    | none => ""
+    | some e => match e.tok with
+      | none => ""
+      | some t => showSpec text dirs t
+  toks ++ " | " ++ spec ++ " | " ++ ds ++ " | " ++ es
 
 def showRawTok (t : Token) : String :=
   let lit := match t.lit with
